@@ -13,20 +13,24 @@ notification."
 All statements are about every trace of the transition system `OPM.Runner.next` (model M12 of
 `EngineRunner` + `assign_sequence_number`; atomic steps = await points), `Reach tr s := run init tr = some s`.
 
-The code as it is violates three clauses (both reproduced on the real `EngineRunner` by `props/C27.py`):
+The code as it is violates the order, stranded and delivery clauses (all reproduced on the real `EngineRunner`
+by `props/C27.py`, recorded in findings.d/C27.json):
 * order: while `CatchingUp` `_post_async` sends new messages directly, ahead of what is still buffered —
   a RunStoppedMsg posted then overtakes the buffered run data of its run (`C27_counterexample`);
 * stranded: when two sends fail together in steady state both failure handlers wait for the cancelled
   steady-state task; the second one to wake executes `self._state_task = None` over the buffer task the first
   one has just installed and installs another: the first buffer task is never cancelled and keeps appending
   to `_message_buffer` every 5 s while the runner is Reconnected (`C27_counterexample_stranded`);
-* loss: when the steady-state task's own un-shielded first `_post_async` fails, `_set_state("Failed")`
-  cancels and awaits the very task it runs in; the cancellation is swallowed, the task never ends, and every
-  other failure handler waiting for it never buffers its message (`C27_counterexample_loss`).
-`C27_full` stays visible; `C27_partial` proves the clauses for every trace without the three triggers
-(and without a fault hitting a catch-up re-send, which would reorder the buffer).
-Conservation, sequence numbers and re-sends hold for ALL traces; the empty buffer in `Reconnected` for all
-traces without an orphaned buffer task.
+* delivery / loss: the steady-state task's first `_post_async` is awaited un-shielded inside the state task;
+  if it fails, `_set_state("Failed")` cancels and awaits the very task it runs in, the cancellation is
+  swallowed, the task never ends and every other failure handler waiting for it never buffers its message
+  (`C27_counterexample_loss`); or another handler cancels that task before it has seen its failure and the
+  failed message is dropped (`C27_counterexample_delivery`).
+`C27_full` (structure `Holds` at every reachable state) stays visible.  What holds: conservation, sequence
+numbers (also per attempt on the wire) and re-sends for ALL traces; delivery and "nothing stuck" for all traces
+without the two loss triggers (`C27_delivery_partial` — any number of outages, also during catch-up); order and
+"empty buffer when Reconnected" for all traces without the order/orphan triggers (`C27_order_partial`);
+everything together on calm traces (`C27_partial`).
 -/
 namespace OPM.C27
 open OPM.Runner
@@ -190,11 +194,26 @@ def OrderOK (s : State) : Prop :=
 /-- No failed message is left behind a task that never ends. -/
 def NoneStuck (s : State) : Prop := s.stuck = []
 
+/-- **Delivery clause**: once the runner reports it has caught up (steady state; nothing buffered, taken for a
+    batch, in flight, failed-and-unhandled or waiting to be posted) every message that carries evidence of a
+    disconnect — created while the runner was Failed / Disconnected / Reconnecting, or a send attempt of it
+    failed, or it was buffered — has been delivered. -/
+def DeliveryOK (s : State) : Prop := CaughtUp s → ∀ id, Evidence s id → id ∈ s.delivered
+
+/-- Everything C27 says about a reachable state. -/
+structure Holds (s : State) : Prop where
+  conserved : Conserved s
+  seq : SeqWF s
+  wire : WireOK s
+  resend : ResendOK s
+  caughtUp : s.st = .reconnected → s.buffer = []
+  noneStuck : NoneStuck s
+  delivery : DeliveryOK s
+  orderFlag : s.orderViol = false
+  order : OrderOK s
+
 /-- Full statement of C27 over all traces. -/
-def C27_full : Prop :=
-  ∀ tr s, Reach tr s →
-    Conserved s ∧ SeqWF s ∧ ResendOK s ∧ (s.st = .reconnected → s.buffer = []) ∧ NoneStuck s ∧
-    s.orderViol = false ∧ OrderOK s
+def C27_full : Prop := ∀ tr s, Reach tr s → Holds s
 
 /-- Witness (order): disconnect, run data (message 2, run 1) is buffered by the buffer task, reconnect,
     state CatchingUp, the run stops: RunStoppedMsg (message 3) is sent directly and answered while
@@ -207,7 +226,7 @@ def orderWitness : List Ev :=
 theorem C27_counterexample : ¬ C27_full := by
   intro h
   obtain ⟨s, hs, hv⟩ := holdsAfter_spec orderWitness (fun s => s.orderViol) (by decide)
-  have := (h orderWitness s hs).2.2.2.2.2.1
+  have := (h orderWitness s hs).orderFlag
   rw [hv] at this; cases this
 
 /-- Witness (loss): the steady-state task's own post (message 1) and an event post (message 2) fail
@@ -236,9 +255,57 @@ theorem C27_counterexample_loss :
 theorem C27_full_refuted_by_loss : ¬ C27_full := by
   intro h
   obtain ⟨s, hs, hm, _⟩ := C27_counterexample_loss
-  have := (h lossWitness s hs).2.2.2.2.1
+  have := (h lossWitness s hs).noneStuck
   unfold NoneStuck at this
   rw [this] at hm; cases hm
+
+/-- Witness (delivery, same defect carried on to the end): after `lossWitness` the runner buffers message 1,
+    disconnects, reconnects, catches up and reports Reconnected with nothing queued — message 2 (a
+    RunStoppedMsg whose send had failed) was never delivered. -/
+def deliveryWitnessStuck : List Ev :=
+  lossWitness ++ [.taskSet .buffering, .buf 1 2, .disconnect, .setState .disconnected, .connect true,
+    .setState .reconnecting, .setState .catchingUp, .take 1, .postBatch true [2], .ok 1, .setState .reconnected]
+
+/-- Witness (delivery, second mechanism): an event post (1) and the steady-state task's own un-shielded post (2)
+    fail together; the handler of 1 cancels the state task before the task has seen its failure — the
+    CancelledError replaces the network error and message 2 is dropped (`cancel 2` out of `pending`). -/
+def deliveryWitnessCancel : List Ev :=
+  [.connect true, .setState .connected, .taskSet .steady, .produce 1 .other, .send 1 2, .produce 2 .other,
+   .send 2 3, .fail 1, .fail 2, .setState .failed, .wait 1 false, .cancel 2, .taskClear false,
+   .taskSet .buffering, .buf 1 2, .disconnect, .setState .disconnected, .connect true, .setState .reconnecting,
+   .setState .catchingUp, .take 1, .postBatch true [2], .ok 1, .setState .reconnected]
+
+def caughtUpB (s : State) : Bool :=
+  (decide (s.st = .reconnected) || decide (s.st = .connected)) && s.fresh.isEmpty && s.inflight.isEmpty &&
+  s.pending.isEmpty && s.waiting.isEmpty && s.batch.isEmpty && s.buffer.isEmpty
+
+theorem caughtUpB_spec (s : State) (h : caughtUpB s = true) : CaughtUp s := by
+  simp only [caughtUpB, Bool.and_eq_true, Bool.or_eq_true, decide_eq_true_eq, List.isEmpty_iff] at h
+  obtain ⟨⟨⟨⟨⟨⟨h0, h1⟩, h2⟩, h3⟩, h4⟩, h5⟩, h6⟩ := h
+  exact ⟨h0, h1, h2, h3, h4, h5, h6⟩
+
+/-- The runner has caught up, message 2's send failed, message 2 was never delivered. -/
+theorem C27_counterexample_delivery :
+    (∃ s, Reach deliveryWitnessStuck s ∧ CaughtUp s ∧ Evidence s 2 ∧ 2 ∉ s.delivered) ∧
+    (∃ s, Reach deliveryWitnessCancel s ∧ CaughtUp s ∧ Evidence s 2 ∧ 2 ∉ s.delivered) := by
+  constructor
+  · obtain ⟨s, hs, hp⟩ := holdsAfter_spec deliveryWitnessStuck
+      (fun s => caughtUpB s && s.fails.contains 2 && !s.delivered.contains 2) (by decide)
+    simp only [Bool.and_eq_true, Bool.not_eq_true'] at hp
+    refine ⟨s, hs, caughtUpB_spec s hp.1.1, Or.inr (Or.inl (by simpa using hp.1.2)), ?_⟩
+    intro hm; have : s.delivered.contains 2 = true := by simpa using hm
+    rw [this] at hp; exact absurd hp.2 (by simp)
+  · obtain ⟨s, hs, hp⟩ := holdsAfter_spec deliveryWitnessCancel
+      (fun s => caughtUpB s && s.fails.contains 2 && !s.delivered.contains 2) (by decide)
+    simp only [Bool.and_eq_true, Bool.not_eq_true'] at hp
+    refine ⟨s, hs, caughtUpB_spec s hp.1.1, Or.inr (Or.inl (by simpa using hp.1.2)), ?_⟩
+    intro hm; have : s.delivered.contains 2 = true := by simpa using hm
+    rw [this] at hp; exact absurd hp.2 (by simp)
+
+theorem C27_full_refuted_by_delivery : ¬ C27_full := by
+  intro h
+  obtain ⟨⟨s, hs, hq, he, hn⟩, _⟩ := C27_counterexample_delivery
+  exact hn ((h deliveryWitnessStuck s hs).delivery hq 2 he)
 
 /-- Witness (stranded): two sends of the steady-state loop fail together; both handlers wait for the cancelled
     state task; the first to wake installs a buffer task, the second executes `self._state_task = None` and
@@ -262,45 +329,192 @@ theorem C27_counterexample_stranded :
 theorem C27_full_refuted_by_stranding : ¬ C27_full := by
   intro h
   obtain ⟨s, hs, hst, hb⟩ := C27_counterexample_stranded
-  have := (h strandWitness s hs).2.2.2.1 hst
+  have := (h strandWitness s hs).caughtUp hst
   rw [this] at hb; cases hb
 
-/-- Hypothesis of the partial theorem, decidable on the trace: no step is
-    (a) the state task clearing `_state_task` itself (swallowed self-cancellation),
-    (b) a stop notification sent directly while CatchingUp,
-    (c) a failure of a message that had been buffered (fault during a catch-up re-send),
-    (d) a batch whose posts are re-buffered,
-    (e) a failure handler clearing `_state_task` while it refers to a live buffer task (orphaning it). -/
+/-! ### What holds of the code as it is — each clause under the hypotheses it needs
+
+Decidable hypotheses on the trace (`alongFrom p init tr`: predicate `p` holds at every step):
+* `calmLoss`  — no step is (a) the state task clearing `_state_task` itself (swallowed self-cancellation) or
+                (f) a cancelled send hitting a message with evidence of a disconnect;
+* `calmOrder` — no step is (b) a stop notification sent directly while CatchingUp, (c) a failure of a message
+                that had been buffered (a fault hitting a catch-up re-send), (d) a stop notification entering the
+                buffer between a batch take and the posts of that batch, (e) a failure handler clearing
+                `_state_task` while it refers to a live buffer task (orphaning it).
+(a), (b), (e), (f) are the recorded defects of the code.  (c) and (d) are limits of this model, not of the
+code: the model lets the steps of different tasks interleave at every await point, whereas asyncio runs the
+failure handlers of one connection loss back to back and starts an engine-event post two loop iterations
+after the event; `order_needs_c_in_model` / `order_needs_d_in_model` show that the model really admits
+inversions there.  On traces with (c)/(d) — a second outage during catch-up — the order clause is judged by
+the oracle on the real runner only; every other clause is proved for them. -/
+
+def CalmLoss (tr : List Ev) : Prop := alongFrom calmLoss init tr = true
+def CalmOrder (tr : List Ev) : Prop := alongFrom calmOrder init tr = true
 def Calm (tr : List Ev) : Prop := calmFrom init tr = true
 
+instance (tr : List Ev) : Decidable (CalmLoss tr) := by unfold CalmLoss; infer_instance
+instance (tr : List Ev) : Decidable (CalmOrder tr) := by unfold CalmOrder; infer_instance
 instance (tr : List Ev) : Decidable (Calm tr) := by unfold Calm; infer_instance
 
-theorem ordWF_of_calm (tr : List Ev) : ∀ s0 s, Conserved s0 → Idle s0 → s0.orphans = 0 → OrdWF s0 →
-    calmFrom s0 tr = true → run s0 tr = some s → OrdWF s ∧ Idle s ∧ s.orphans = 0 := by
+theorem calm_split (tr : List Ev) : ∀ s0, calmFrom s0 tr = true →
+    alongFrom calmOrder s0 tr = true ∧ alongFrom calmLoss s0 tr = true := by
   induction tr with
-  | nil => intro s0 s _ hi hz ho _ hr; simp only [run] at hr; cases hr; exact ⟨ho, hi, hz⟩
+  | nil => intro s0 _; exact ⟨rfl, rfl⟩
   | cons e es ih =>
-    intro s0 s hc hi hz ho hcalm hr
+    intro s0 h
+    simp only [calmFrom, alongFrom, calmStep, Bool.and_eq_true] at h
+    simp only [alongFrom, Bool.and_eq_true]
+    cases hn : next s0 e with
+    | none => rw [hn] at h; exact ⟨⟨h.1.1, rfl⟩, ⟨h.1.2, rfl⟩⟩
+    | some s1 =>
+      rw [hn] at h
+      have := ih s1 (by simpa [calmFrom] using h.2)
+      exact ⟨⟨h.1.1, this.1⟩, ⟨h.1.2, this.2⟩⟩
+
+/-- generic induction along a trace on which `p` holds at every step -/
+theorem along_induct (p : State → Ev → Bool) (P : State → Prop)
+    (hstep : ∀ s s' e, next s e = some s' → p s e = true → P s → P s') (tr : List Ev) :
+    ∀ s0 s, P s0 → alongFrom p s0 tr = true → run s0 tr = some s → P s := by
+  induction tr with
+  | nil => intro s0 s h0 _ hr; simp only [run] at hr; cases hr; exact h0
+  | cons e es ih =>
+    intro s0 s h0 ha hr
     simp only [run] at hr
-    simp only [calmFrom, Bool.and_eq_true] at hcalm
+    simp only [alongFrom, Bool.and_eq_true] at ha
     cases hn : next s0 e with
     | none => rw [hn] at hr; cases hr
     | some s1 =>
       rw [hn] at hr
-      have h2 := hcalm.2
+      have h2 := ha.2
       rw [hn] at h2
-      have hz1 := orphans_calm s0 s1 e hn hcalm.1 hz
-      exact ih s1 s (conserved_step s0 s1 e hn hc) (idle_step s0 s1 e hn hi hz1) hz1
-        (ordWF_step s0 s1 e hn hcalm.1 hc hi ho) h2 hr
+      exact ih s1 s (hstep s0 s1 e hn ha.1 h0) h2 hr
 
-/-- **What holds of the code as it is**: on every calm trace no message gets stuck and every delivered stop
-    notification comes after the buffered run data of its run. -/
-theorem C27_partial (tr : List Ev) (s : State) (h : Reach tr s) (hcalm : Calm tr) :
-    NoneStuck s ∧ s.orderViol = false ∧ OrderOK s ∧ (s.st = .reconnected → s.buffer = []) := by
+theorem stuck_calm (s s' : State) (e : Ev) (h : next s e = some s') (hc : calmLoss s e = true)
+    (hz : s.stuck = []) : s'.stuck = [] := by
+  cases e with
+  | taskClear self =>
+    cases self
+    · simp only [next] at h; split at h <;> cases h <;> exact hz
+    · simp [calmLoss] at hc
+  | produce i k => simp only [next] at h; split at h <;> cases h; exact hz
+  | send i q => simp only [next] at h; split at h <;> cases h; exact hz
+  | buf i q => simp only [next] at h; (repeat' split at h) <;> (try (cases h)) <;> exact hz
+  | bufTask i q => simp only [next] at h; split at h <;> cases h; exact hz
+  | reject i => simp only [next] at h; split at h <;> cases h; exact hz
+  | ok i =>
+    simp only [next] at h
+    split at h
+    · split at h <;> cases h; exact hz
+    · cases h
+  | fail i =>
+    simp only [next] at h
+    split at h
+    · split at h <;> cases h; exact hz
+    · cases h
+  | cancel i => simp only [next] at h; (repeat' split at h) <;> (try (cases h)) <;> exact hz
+  | setState t =>
+    cases t <;> simp only [next] at h <;> (try (cases h)) <;>
+      (repeat' split at h) <;> (try (cases h)) <;> exact hz
+  | take n => simp only [next] at h; split at h <;> cases h; exact hz
+  | postBatch sent qs =>
+    cases sent <;> simp only [next] at h <;> split at h <;> (try (cases h)) <;> exact hz
+  | connect b => simp only [next] at h; split at h <;> cases h; exact hz
+  | disconnect => simp only [next] at h; cases h; exact hz
+  | wait i self =>
+    cases self <;> simp only [next] at h <;> split at h <;> (try (cases h)) <;> exact hz
+  | waitOther => simp only [next] at h; split at h <;> cases h; exact hz
+  | taskSet k => simp only [next] at h; cases h; exact hz
+
+/-- **Loss / delivery clause** for every trace without (a) and (f): nothing gets stuck behind a task that never
+    ends, and once the runner reports it has caught up every message with evidence of a disconnect has been
+    delivered.  (No hypothesis about faults during catch-up: a second, third … outage is covered.) -/
+theorem C27_delivery_partial (tr : List Ev) (s : State) (h : Reach tr s) (hcalm : CalmLoss tr) :
+    NoneStuck s ∧ DeliveryOK s := by
+  have key : Conserved s ∧ EverOK s ∧ EvOK s ∧ s.stuck = [] :=
+    along_induct calmLoss (fun t => Conserved t ∧ EverOK t ∧ EvOK t ∧ t.stuck = [])
+      (fun a b e hn hp ha => ⟨conserved_step a b e hn ha.1, everOK_step a b e hn ha.1 ha.2.1,
+        evOK_step a b e hn hp ha.1 ha.2.1 ha.2.2.1, stuck_calm a b e hn hp ha.2.2.2⟩)
+      tr init s ⟨conserved_init, everOK_init, evOK_init, rfl⟩ hcalm h
+  obtain ⟨hc, _, hev, hst⟩ := key
+  refine ⟨hst, ?_⟩
+  intro hq id hE
+  obtain ⟨a, b, c, d⟩ := hev.1 id hE
+  exact delivered_of_caughtUp s hc hq id ⟨c, d⟩ a b (by rw [hst]; exact List.not_mem_nil)
+
+/-- Non-vacuity: a trace with TWO outages (the second one during the catch-up: the re-sent batch fails and is
+    buffered again), no (a)/(f) step, ending caught up with every message delivered. -/
+def twoOutages : List Ev :=
+  [.connect true, .setState .connected, .produce 1 .other, .send 1 2, .fail 1, .setState .failed, .buf 1 2,
+   .produce 2 (.data 1), .bufTask 2 3, .disconnect, .setState .disconnected, .connect true,
+   .setState .reconnecting, .setState .catchingUp, .take 2, .postBatch true [2, 3], .fail 1, .fail 2,
+   .setState .failed, .buf 1 2, .setState .failed, .buf 2 3, .disconnect, .setState .disconnected,
+   .connect true, .setState .reconnecting, .setState .catchingUp, .take 2, .postBatch true [2, 3], .ok 1, .ok 2,
+   .setState .reconnected]
+
+example : CalmLoss twoOutages ∧ ¬ CalmOrder twoOutages ∧ ∃ s, Reach twoOutages s ∧
+    (caughtUpB s && s.delivered == [1, 2] && s.fails == [1, 1, 2]) = true :=
+  ⟨by decide, by decide, holdsAfter_spec _ _ (by decide)⟩
+
+theorem ordWF_of_calm (tr : List Ev) : ∀ s0 s, Conserved s0 → Idle s0 → s0.orphans = 0 → OrdWF s0 →
+    alongFrom calmOrder s0 tr = true → run s0 tr = some s → OrdWF s ∧ Idle s ∧ s.orphans = 0 := by
+  intro s0 s hc hi hz ho hcalm hr
+  have key := along_induct calmOrder (fun t => Conserved t ∧ Idle t ∧ t.orphans = 0 ∧ OrdWF t)
+    (fun a b e hn hp ha =>
+      have hz1 := orphans_calm a b e hn hp ha.2.2.1
+      ⟨conserved_step a b e hn ha.1, idle_step a b e hn ha.2.1 hz1, hz1,
+        ordWF_step a b e hn hp ha.1 ha.2.1 ha.2.2.2⟩)
+    tr s0 s ⟨hc, hi, hz, ho⟩ hcalm hr
+  exact ⟨key.2.2.2, key.2.1, key.2.2.1⟩
+
+/-- **Order and stranded clause** for every trace without (b), (c), (d), (e): every delivered stop notification
+    comes after the buffered run data of its run, and the buffer is empty whenever the runner is Reconnected. -/
+theorem C27_order_partial (tr : List Ev) (s : State) (h : Reach tr s) (hcalm : CalmOrder tr) :
+    s.orderViol = false ∧ OrderOK s ∧ (s.st = .reconnected → s.buffer = []) := by
   obtain ⟨ho, hi, _⟩ := ordWF_of_calm tr init s conserved_init idle_init rfl ordWF_init hcalm h
-  refine ⟨ho.2.2.2, ho.2.2.1, ?_, fun hs => (hi (Or.inl hs)).1⟩
+  refine ⟨ho.2.2.1, ?_, fun hs => (hi (Or.inl hs)).1⟩
   intro p hp hd
-  exact before_prefix _ _ _ _ (ho.2.1 p hp).2.2.2.2 hd
+  exact before_prefix _ _ _ _ (ho.2.1 p hp).2.2.2.2.1 hd
+
+/-- **What holds of the code as it is**: on every calm trace, everything. -/
+theorem C27_partial (tr : List Ev) (s : State) (h : Reach tr s) (hcalm : Calm tr) : Holds s := by
+  obtain ⟨h1, h2⟩ := calm_split tr init hcalm
+  obtain ⟨o1, o2, o3⟩ := C27_order_partial tr s h h1
+  obtain ⟨d1, d2⟩ := C27_delivery_partial tr s h h2
+  exact { conserved := conserved_reach tr s h
+          seq := run_induct SeqWF seqWF_step tr init s seqWF_init h
+          wire := run_induct WireOK wireOK_step tr init s wireOK_init h
+          resend := run_induct ResendOK resend_step tr init s resend_init h
+          caughtUp := o3, noneStuck := d1, delivery := d2, orderFlag := o1, order := o2 }
+
+/-- Hypothesis (c) cannot be dropped *in the model*: the model admits this trace — the re-sent run data (2)
+    fails, the stop (3) is buffered after `setState failed` but before the handler of 2 has buffered it again,
+    so the next batch sends the stop first.  In the code `_set_state("Failed")` and `_buffer_message` of that
+    handler run without an await in between while CatchingUp, so the real runner cannot do this. -/
+def orderWitnessC : List Ev :=
+  [.connect true, .setState .connected, .produce 1 .other, .send 1 2, .fail 1, .setState .failed, .buf 1 2,
+   .produce 2 (.data 1), .bufTask 2 3, .disconnect, .setState .disconnected, .connect true,
+   .setState .reconnecting, .setState .catchingUp, .take 2, .postBatch true [2, 3], .ok 1, .fail 2,
+   .setState .failed, .produce 3 (.stop 1), .buf 3 4, .buf 2 3, .disconnect, .setState .disconnected,
+   .connect true, .setState .reconnecting, .setState .catchingUp, .take 2, .postBatch true [4, 3], .ok 3]
+
+theorem order_needs_c_in_model :
+    CalmLoss orderWitnessC ∧ ∃ s, Reach orderWitnessC s ∧ s.orderViol = true :=
+  ⟨by decide, holdsAfter_spec orderWitnessC (fun s => s.orderViol) (by decide)⟩
+
+/-- Hypothesis (d) cannot be dropped in the model either: the stop (4) is buffered between the batch take and
+    the (re-buffering) posts of the batch.  In the code the posts of the batch run in the loop iteration after
+    the take, an engine-event post runs two iterations after the event. -/
+def orderWitnessD : List Ev :=
+  [.connect true, .setState .connected, .produce 1 .other, .send 1 2, .fail 1, .setState .failed, .buf 1 2,
+   .produce 2 (.data 1), .bufTask 2 3, .disconnect, .setState .disconnected, .connect true,
+   .setState .reconnecting, .setState .catchingUp, .produce 3 .other, .send 3 4, .take 2, .fail 3,
+   .setState .failed, .produce 4 (.stop 1), .buf 4 5, .postBatch false [2, 3], .buf 3 4, .disconnect,
+   .setState .disconnected, .connect true, .setState .reconnecting, .setState .catchingUp, .take 4,
+   .postBatch true [5, 2, 3, 4], .ok 4]
+
+theorem order_needs_d_in_model :
+    CalmLoss orderWitnessD ∧ ∃ s, Reach orderWitnessD s ∧ s.orderViol = true :=
+  ⟨by decide, holdsAfter_spec orderWitnessD (fun s => s.orderViol) (by decide)⟩
 
 /-- Non-vacuity: a calm trace with a disconnect during run 1, buffered run data (2), the stop (3) posted while
     disconnected, reconnect, catch-up batch, everything answered in order, Reconnected with an empty buffer. -/
@@ -311,13 +525,17 @@ def calmWitness : List Ev :=
    .ok 1, .ok 2, .ok 3, .setState .reconnected]
 
 example : Calm calmWitness ∧ ∃ s, Reach calmWitness s ∧
-    (decide (s.st = .reconnected) && s.delivered == [1, 2, 3] && s.owed == [(2, 3)] && s.buffer == []) = true :=
+    (caughtUpB s && s.delivered == [1, 2, 3] && s.owed == [(2, 3)] && decide (s.orphans = 0)) = true :=
   ⟨by decide, holdsAfter_spec _ _ (by decide)⟩
 
-example : ∃ s, Reach calmWitness s ∧ (decide (s.st = .reconnected) && decide (s.orphans = 0)) = true :=
-  holdsAfter_spec _ _ (by decide)
+/-- A batch that is re-buffered (state changed between take and posts) is inside `CalmOrder` now. -/
+example : CalmOrder [.connect true, .setState .connected, .produce 1 .other, .send 1 2, .fail 1,
+    .setState .failed, .buf 1 2, .disconnect, .setState .disconnected, .connect true, .setState .reconnecting,
+    .setState .catchingUp, .produce 2 .other, .send 2 3, .take 1, .fail 2, .setState .failed,
+    .postBatch false [2], .buf 2 3] := by decide
 
-/-- The witnesses are not calm: order (b), loss (a), stranding (e). -/
-example : ¬ Calm orderWitness ∧ ¬ Calm lossWitness ∧ ¬ Calm strandWitness := by decide
+/-- The witnesses are not calm: order (b), loss (a), stranding (e), cancelled failed send (f). -/
+example : ¬ CalmOrder orderWitness ∧ ¬ CalmLoss lossWitness ∧ ¬ CalmOrder strandWitness ∧
+    ¬ CalmLoss deliveryWitnessCancel := by decide
 
 end OPM.C27
